@@ -56,6 +56,9 @@ InnerSelfAt(c, g, x, lv) ==
   IF \E j \in 0..(n - 1) : \E q \in fs[j + 1] \ {END} : g.item[q].lv = lv /\ SubSeq(x, j + 1, n) \in Toks(c, g.item[q])
   THEN {x} ELSE {}
 InnerLevels(g) == { g.item[q].lv : q \in DOMAIN g.item }
+\* inside the word only levels up to the first one that has a candidate are consulted
+InnerWin(c, g, x) == LET ls == { l \in InnerLevels(g) : InnerReqAt(c, g, x, l) # {} } IN
+                     IF ls = {} THEN 99 ELSE CHOOSE l \in ls : \A m \in ls : l <= m
 \* last boundary the script can have reached, and the commands it must consult there
 LastFront(c, g, x) == LET fs == FrontsOf(c, g, x) IN
                       CHOOSE j \in 0..Len(x) : fs[j + 1] # {} /\ \A i \in (j + 1)..Len(x) : fs[i + 1] = {}
@@ -138,7 +141,7 @@ RequiredCalls(c, sp, P, x) ==
        { [probe |-> ProbeOf(c, sp.top.item[p]), a1 |-> x, a2 |-> <<>>] : p \in { q \in ps : IsCmdK(sp.top.item[q].k) } } \cup
        UNION { LET g == sp.sub[p]  j == LastFront(c, g, x) IN
                { [probe |-> ProbeOf(c, g.item[q]), a1 |-> SubSeq(x, j + 1, Len(x)), a2 |-> SubSeq(x, 1, j)] :
-                 q \in { r \in FrontsOf(c, g, x)[j + 1] \ {END} : IsCmdK(g.item[r].k) } }
+                 q \in { r \in FrontsOf(c, g, x)[j + 1] \ {END} : IsCmdK(g.item[r].k) /\ g.item[r].lv <= InnerWin(c, g, x) } }
                : p \in { q \in ps : sp.top.item[q].k = "sub" /\ OptAt(c, sp, P, x, sp.top.item[q].lv) = {} } }
 \* every probe identity that is expected anywhere along the path or at the cursor
 ExpectedProbesAt(c, sp, P) ==
